@@ -4,6 +4,7 @@ import (
 	"errors"
 	"fmt"
 	"sort"
+	"strings"
 	"time"
 
 	"github.com/0xrawsec/sod"
@@ -95,21 +96,32 @@ func (s *Seq) orderedBy(q *Query) string {
 	return ""
 }
 
+// dbPath is the path handed to the database: a field of the embedded structure is
+// sometimes named the way Go promotes it ("ES" for "Emb.ES"); both names denote
+// the same field, with its constraints and its index.
+func (s *Seq) dbPath(p string, salt int) string {
+	if strings.HasPrefix(p, "Emb.") && (s.step+salt)%2 == 0 {
+		s.stat("search:promoted-field-name")
+		return strings.TrimPrefix(p, "Emb.")
+	}
+	return p
+}
+
 func (s *Seq) buildSearch(q *Query) *sod.Search {
-	sr := s.db.Search(rec0(), q.First.Path, q.First.Op, q.First.V.Go())
+	sr := s.db.Search(rec0(), s.dbPath(q.First.Path, 0), q.First.Op, q.First.V.Go())
 	for i, c := range q.Rest {
 		prefix := sr
 		// And/Or directly, or through the string-keyed Operation entry point
 		viaOp := (len(q.First.Path)+len(c.C.Path)+i+s.step)%3 == 0
 		switch {
 		case c.Or && viaOp:
-			sr = sr.Operation([]string{"or", "||", "OR"}[(i+s.step)%3], c.C.Path, c.C.Op, c.C.V.Go())
+			sr = sr.Operation([]string{"or", "||", "OR"}[(i+s.step)%3], s.dbPath(c.C.Path, i+1), c.C.Op, c.C.V.Go())
 		case c.Or:
-			sr = sr.Or(c.C.Path, c.C.Op, c.C.V.Go())
+			sr = sr.Or(s.dbPath(c.C.Path, i+1), c.C.Op, c.C.V.Go())
 		case viaOp:
-			sr = sr.Operation([]string{"and", "&&", "And"}[(i+s.step)%3], c.C.Path, c.C.Op, c.C.V.Go())
+			sr = sr.Operation([]string{"and", "&&", "And"}[(i+s.step)%3], s.dbPath(c.C.Path, i+1), c.C.Op, c.C.V.Go())
 		default:
-			sr = sr.And(c.C.Path, c.C.Op, c.C.V.Go())
+			sr = sr.And(s.dbPath(c.C.Path, i+1), c.C.Op, c.C.V.Go())
 		}
 		if (s.step+i+len(c.C.Path))%2 == 0 && prefix.Err() == nil {
 			// a search is a value: a sibling refined from the same prefix after this one
@@ -793,7 +805,7 @@ func (s *Seq) genBadCmp(r *simrt.Rand) Cmp {
 		}
 		return Cmp{Path: "Nope", Op: "=", V: Val{T: "string", S: "a"}}
 	case 0:
-		f := []string{"Nope", "In.Nope", "S.x", "P.Nope.N", "", "emb.E", "P", "In", "Emb", "Tags", "M", "L", "I8.x.y"}[r.Intn(13)]
+		f := []string{"Nope", "In.Nope", "S.x", "P.Nope.N", "", "emb.E", "P", "In", "Emb", "Tags", "M", "L", "I8.x.y", "uuid", "Item.uuid", "PI.x", "In.N.x", "Emb.e", "P.S.x"}[r.Intn(19)]
 		return Cmp{Path: f, Op: "=", V: Val{T: "string", S: "a"}}
 	case 1:
 		return Cmp{Path: path, Op: []string{"<>", "==", "", "=<", "like"}[r.Intn(5)], V: good}
